@@ -919,15 +919,19 @@ def check_C12(tier, seed):
         add('(plist-get %s %s)' % (lit(pl), lit(prop)), (lambda pl=pl, prop=prop: L.plist_get(pl, prop)))
     # higher order: visit every element once, in order (tick log = order of visits)
     fns = [("'1+", lambda x: x + 1), ("#'1+", lambda x: x + 1), ('(lambda (p) (* p 2))', lambda x: x * 2),
-           ('(let ((k 3)) (lambda (p) (+ p k)))', lambda x: x + 3), ('(lambda (p) (tick 1 p))', lambda x: x)]
-    preds = [('(lambda (p) (< p 3))', lambda x: x < 3), ("'integerp", lambda x: True), ('(lambda (p) (tick 2 (> p 1)))', lambda x: x > 1)]
+           ('(let ((k 3)) (lambda (p) (+ p k)))', lambda x: x + 3), ('(lambda (p) (tick 1 p))', lambda x: x),
+           # a lambda form handed over as data (quoted, function-quoted, out of a list), a function name out of a list
+           ("#'(lambda (p) (* p 2))", lambda x: x * 2), ("'(lambda (p) (+ p 3))", lambda x: x + 3), ("(car (list '(lambda (p) (- p 1))))", lambda x: x - 1), ("(car '(1+))", lambda x: x + 1),
+           ("'(lambda (p) (tick 1 p))", lambda x: x)]
+    preds = [('(lambda (p) (< p 3))', lambda x: x < 3), ("'integerp", lambda x: True), ('(lambda (p) (tick 2 (> p 1)))', lambda x: x > 1),
+             ("#'(lambda (p) (< p 3))", lambda x: x < 3), ("'(lambda (p) (> p 1))", lambda x: x > 1), ("(car (list '(lambda (p) (< p 1))))", lambda x: x < 1)]
     for _ in range(tier_n(tier, 400, 8000)):
         xs = [rng.choice([0, 1, 2, 3, 5, -1]) for _ in range(rng.choice([0, 1, 2, 3, 5]))]
         ft, ff = rng.choice(fns)
         pt, pf = rng.choice(preds)
         add('(%s %s %s)' % (rng.choice(['mapcar', 'seq-map']), ft, lit(xs)), (lambda xs=xs, ff=ff: [ff(x) for x in xs]))
         add('(seq-filter %s %s)' % (pt, lit(xs)), (lambda xs=xs, pf=pf: [x for x in xs if pf(x)]))
-        add("(seq-reduce %s %s %d)" % (rng.choice(["'+", "#'+", '(lambda (p q) (+ p q))']), lit(xs), 10), (lambda xs=xs: 10 + sum(xs)))
+        add("(seq-reduce %s %s %d)" % (rng.choice(["'+", "#'+", '(lambda (p q) (+ p q))', "'(lambda (p q) (+ p q))", "#'(lambda (p q) (+ q p))"]), lit(xs), 10), (lambda xs=xs: 10 + sum(xs)))
         add("(seq-reduce (lambda (acc e) (cons e acc)) %s nil)" % lit(xs), (lambda xs=xs: list(reversed(xs))))
         dflt = rng.choice([None, 'none'])
         add('(seq-find %s %s %s)' % (pt, lit(xs), lit(dflt)), (lambda xs=xs, pf=pf, dflt=dflt: next((x for x in xs if pf(x)), dflt)))
@@ -1027,9 +1031,36 @@ def check_C17(tier, seed):
         p = rng.choice(["'<", "'>"])
         items.append(("(setq xs '(%s)) (list (sort (cons %d xs) %s) xs (sort (append xs nil) %s) xs (sort (cdr xs) %s) xs)" %
                       (' '.join(map(str, xs)), rng.randint(-5, 5), p, p, p), {'kind': 'mixed', 'pf': None, 'pred': 'shared' + p}))
+    # identity: the result holds the objects of the argument themselves (cons cells, strings, nested lists), not copies -
+    # also when nothing has to move (ordered input, constant predicate, one element, equal keys)
+    idcases = []
+    idpreds = ["(lambda (p q) (< (car p) (car q)))", "(lambda (p q) nil)", "(lambda (p q) t)", "(lambda (p q) (> (car p) (car q)))", "(lambda (p q) (< (car p) (car q)))"]
+    for j in range(tier_n(tier, 120, 2000)):
+        n = rng.choice([1, 1, 2, 3, 5, 8, 21, 40])
+        mode = rng.choice(['ordered', 'equal', 'random', 'reverse'])
+        keys = {'ordered': list(range(n)), 'equal': [3] * n, 'random': [rng.randrange(5) for _ in range(n)], 'reverse': list(range(n, 0, -1))}[mode]
+        ek = rng.choice(['cons', 'list', 'nested'])
+        el = {'cons': '(cons %d %d)', 'list': '(list %d %d "s")', 'nested': '(list %d (list %d) (quote (q)))'}[ek]
+        c = Case('id%d' % j)
+        c.eval('(setq l (list %s)) (setq before (prin1-to-string l)) (setq s (sort l %s))' % (' '.join(el % (k, i) for i, k in enumerate(keys)), rng.choice(idpreds)))
+        c.eval('(let ((all t)) (dolist (x s) (let ((found nil)) (dolist (y l) (if (eq x y) (setq found t))) (if found nil (setq all nil)))) (list all (length s) (equal (prin1-to-string l) before)))')
+        c.meta = {'n': n, 'mode': mode, 'elements': ek}
+        idcases.append(c)
+    idout = core.run_side(core.TLIMPL_DEBUG, idcases, announce=True)
     rows = run_exprs(res, items, per_case=10)
     nv = 0
     distinct = set()
+    for c in idcases:
+        ls = idout.get(c.cid, [])
+        res.cov['evaluations'] += 1
+        want = '(t %d t)' % c.meta['n']
+        got = None
+        if len(ls) >= 2:
+            _, kind_, payload_, _ = core.parse_line(ls[-1])
+            got = unhx(payload_) if kind_ == 'V' else kind_ + ' ' + payload_
+        if got != want:
+            nv += 1
+            if nv <= 8: res.violation('sort', {'requests': c.readable(), 'why': 'the sorted list does not consist of the very objects of the argument (eq), or the argument was modified', 'expected': want, 'got': got, 'case': c.meta})
     for text, meta, im, mo in rows:
         if im is None: continue
         kind = meta['kind']
@@ -1694,6 +1725,16 @@ def check_C05(tier, seed):
         (["(setq mk (let ((x 1)) (lambda (p) (lambda (x) (list x p)))))", "(funcall (funcall mk 2) 3)", "(let ((p 9)) (funcall (funcall mk 2) 3))"], [None, '(3 2)', '(3 2)']),
         (["(setq mk (let ((x 1) (y 2)) (lambda () (let ((z (+ x y))) (lambda () (list x y z))))))", "(setq x 10 y 20 z 30)", "(funcall (funcall mk))"], [None, None, '(1 2 3)']),
     ]
+    # two different symbols with the same print name (an interned variable and the uninterned one a hygienic macro binds),
+    # both locally bound where the lambda is created: one cell each
+    fixed += [
+        (["(defmacro mk-priv (v) (let ((s (make-symbol \"n\"))) `(let ((,s ,v)) (lambda (k) (setq ,s (+ ,s k)) (list n ,s)))))", "(setq f (let ((n 1)) (mk-priv 10)))", "(funcall f 5)", "(funcall f 5)",
+          "(setq n 100)", "(let ((n 7)) (funcall f 0))"], [None, None, '(1 15)', '(1 20)', None, '(1 20)']),
+        (["(defmacro mk-priv2 (v) (let ((s (make-symbol \"n\"))) `(let ((,s ,v)) (lambda () (setq n (+ n 1)) (list ,s n)))))", "(setq f (let ((n 1)) (mk-priv2 10)))", "(funcall f)", "(funcall f)"],
+         [None, None, '(10 2)', '(10 3)']),
+        (["(setq f (let ((a (make-symbol \"x\")) (b (make-symbol \"x\"))) (eval (list 'let (list (list a 1) (list b 2) '(x 3)) (list 'lambda nil (list 'list a b 'x))))))", "(funcall f)", "(let ((x 9)) (funcall f))"],
+         [None, '(1 2 3)', '(1 2 3)']),
+    ]
     for t, e in fixed: add(t, e, 'fixed')
     cases = []
     for i, (texts, meta) in enumerate(items):
@@ -1768,7 +1809,7 @@ class TailGen:
         if c == 'if1':
             if r.random() < 0.4:
                 # the self-call is a non-final else form: an ordinary call whose value is dropped, not a tail call
-                self.has_nontail = True
+                self.has_nontail = True; self.branching = True       # two self-calls per activation: 2^n activations
                 return ['if', self.cond_e(), self.tail(d - 1), self.selfcall(), ['setq', 'g', ['+', 'g', 1]], self.tail(d - 1)]
             return ['if', self.cond_e(), self.tail(d - 1), ['setq', 'g', ['+', 'g', 1]], self.tail(d - 1)]
         if c == 'cond':
@@ -1881,9 +1922,10 @@ def check_C04(tier, seed):
         g.free_reads = rng.random() < 0.5
         d = g.defun(rng.choice([1, 2, 3, 4]))
         if i < len(CANON_REC): d = CANON_REC[i]; g.has_nontail = True; g.free_reads = False
+        branching = getattr(g, 'branching', False) or i < len(CANON_REC)       # tree walks: the number of activations is exponential in n
         calls = []
         for _ in range(3):
-            n = rng.choice([0, 1, 2, 3, 5, 8, 13, 30])
+            n = rng.choice([0, 1, 2, 3, 5, 8, 11] if branching else [0, 1, 2, 3, 5, 8, 13, 30])
             route = rng.choice(['direct', 'funcall', 'mapcar', 'direct'])
             if route == 'direct': calls.append(['f', n, 0])
             elif route == 'funcall': calls.append(['funcall', Q('f'), n, 1])
